@@ -265,16 +265,38 @@ class Shard:
         with open(errpath, "wb") as ef:
             p = subprocess.Popen(cmd, stdout=ef, stderr=ef, env=env, cwd=self.dir, preexec_fn=pre)
             timed_out = False
-            try:
-                rc = p.wait(timeout=watchdog)
-            except subprocess.TimeoutExpired:
-                timed_out = True
-                p.send_signal(signal.SIGQUIT)  # goroutine dump into the stderr file
+            t0 = time.time()
+            fatal_seen = None
+            rc = None
+            while rc is None:
                 try:
-                    rc = p.wait(timeout=20)
+                    rc = p.wait(timeout=5)
+                    break
                 except subprocess.TimeoutExpired:
+                    pass
+                if time.time() - t0 >= watchdog:
+                    timed_out = True
+                    p.send_signal(signal.SIGQUIT)  # goroutine dump into the stderr file
+                    try:
+                        rc = p.wait(timeout=20)
+                    except subprocess.TimeoutExpired:
+                        p.kill()
+                        rc = p.wait()
+                    break
+                # a worker that has printed a runtime fatal error is dying; some of them (a fatal
+                # error raised inside the collector with GOTRACEBACK=all) never finish the dump and
+                # sit idle - do not wait for the watchdog, the report is already in the file
+                if fatal_seen is None:
+                    try:
+                        with open(errpath, "rb") as chk:
+                            if b"fatal error: " in chk.read(200000):
+                                fatal_seen = time.time()
+                    except OSError:
+                        pass
+                elif time.time() - fatal_seen > 45:
                     p.kill()
                     rc = p.wait()
+                    break
         with open(errpath, "rb") as ef:
             ef.seek(0, 2)
             size = ef.tell()
